@@ -665,6 +665,10 @@ fn run_bundle<P: Payload + Clone>(ctx: &Ctx, b: &Bundle, prefix: &Option<Vec<Cal
                 if !allowed.contains(&d.class) {
                     let p = if removed_arg && allowed.iter().any(|r| r == "Removed" || r == "Panic") { "C12" } else { "C05" };
                     st.violation(keep, Finding { prop: p.into(), kind: "result".into(), detail: format!("{}{}(a={}, b={}) -> {} {} but the specification allows {:?}", if is_ins && !*checked { "unchecked " } else { "" }, c.op, c.a, c.b, d.class, d.panic_msg, allowed), case: case_json(b, prefix, Some(&c), json!(allowed), json!(d)) });
+                    if allowed.len() == 1 && allowed[0] == "Ok" && prop_of_op(&c.op) != "C05" {
+                        // the documented effect did not happen either ("... is a no-op that succeeds", "deletes exactly x")
+                        st.violation(keep, Finding { prop: prop_of_op(&c.op).into(), kind: "valid-call-failed".into(), detail: format!("{}(a={}, b={}) -> {} {} although the call is possible", c.op, c.a, c.b, d.class, d.panic_msg), case: case_json(b, prefix, Some(&c), json!(allowed), json!(d)) });
+                    }
                     if removed_arg && p == "C12" {
                         // also a C05 matter
                         st.violation(keep, Finding { prop: "C05".into(), kind: "result".into(), detail: format!("{}(a={}, b={}) -> {} but the specification allows {:?}", c.op, c.a, c.b, d.class, allowed), case: case_json(b, prefix, Some(&c), json!(allowed), json!(d)) });
